@@ -5,6 +5,7 @@ import (
 	"go/ast"
 	"go/token"
 	"go/types"
+	"regexp"
 	"strings"
 
 	"golang.org/x/tools/go/types/typeutil"
@@ -247,7 +248,9 @@ func (c *Ctx) callMods(info *types.Info, call *ast.CallExpr, ms *modSet, depth i
 		ct = e.contractFor(fn)
 	}
 	if ct != nil {
+		c.modsCall, c.modsInfo = call, info
 		c.contractMods(fn, ct, ms)
+		c.modsCall, c.modsInfo = nil, nil
 		return
 	}
 	if e.isPure(fn) || e.isNoEffect(fn) {
@@ -352,7 +355,27 @@ func (c *Ctx) checkInvs(st *State, id string, ls *LoopSpec, pos token.Pos, extra
 			if inv.Optional {
 				nm = "optinv" // proof hint: may vanish with the local it mentions, never part of the claim
 			}
+			nb := len(c.obls)
 			c.addObl(st, "inv", fmt.Sprintf("%s.%s.%d.%s", nm, id, i+1, phase), t, fmt.Sprintf("loop %s invariant `%s` (%s)", id, inv.Src, phase))
+			if len(inv.Props) > 0 && len(c.obls) > nb {
+				c.obls[len(c.obls)-1].Props = inv.Props
+			}
+		}
+	}
+	if phase == "" {
+		// per-iteration snapshots: bound at the head of the arbitrary iteration (and at the exit state)
+		for _, g := range ls.IterGhosts {
+			v, err := env.trVal(g.Expr)
+			if err != nil {
+				c.abort("loop %s iter %s: %v", id, g.Name, err)
+				return
+			}
+			if v.S != "?nil" {
+				n := c.fresh("it_"+g.Name, v.S)
+				st.assume(eq(n, v.T))
+				v.T = n
+			}
+			st.ghost[g.Name] = v
 		}
 	}
 }
@@ -387,6 +410,10 @@ func (c *Ctx) afterLoop(id string, pos token.Pos, next func(*State)) func(*State
 }
 
 func (c *Ctx) pointClauses(s *State, point string, pos token.Pos) {
+	c.pointClausesX(s, point, pos, nil)
+}
+
+func (c *Ctx) pointClausesX(s *State, point string, pos token.Pos, extra map[string]Val) {
 	if c.prefix != "" || c.unit.Contract == nil {
 		return
 	}
@@ -396,7 +423,7 @@ func (c *Ctx) pointClauses(s *State, point string, pos token.Pos) {
 			continue
 		}
 		n++
-		env := c.invEnv(s, pos, nil)
+		env := c.invEnv(s, pos, extra)
 		t, err := env.trBool(pc.C.Expr)
 		if err != nil {
 			if pc.C.Optional && strings.Contains(err.Error(), "unknown identifier") {
@@ -411,7 +438,11 @@ func (c *Ctx) pointClauses(s *State, point string, pos token.Pos) {
 			if pc.C.Optional {
 				nm = "optassert"
 			}
+			nb := len(c.obls)
 			c.addObl(s, "assert", fmt.Sprintf("%s@%s.%d", nm, strings.ReplaceAll(point, " ", "_"), n), t, "proof step `"+pc.C.Src+"` at "+point)
+			if len(pc.C.Props) > 0 && len(c.obls) > nb {
+				c.obls[len(c.obls)-1].Props = pc.C.Props
+			}
 		} else {
 			c.note("assume clause at " + point + ": " + pc.C.Src)
 		}
@@ -695,6 +726,9 @@ func (c *Ctx) contractMods(fn *types.Func, ct *FuncContract, ms *modSet) {
 		env.bound[pnames[i]] = Val{T: "dummy", S: c.sortOf(sig.Params().At(i).Type()), GT: sig.Params().At(i).Type()}
 	}
 	for _, item := range ct.Modifies {
+		if c.condModStaticallyFalse(item, pnames) {
+			continue
+		}
 		keys, _, err := c.resolveMod(env, item, fn)
 		if err != nil || keys == nil {
 			ms.all = true
@@ -704,4 +738,41 @@ func (c *Ctx) contractMods(fn *types.Func, ct *FuncContract, ms *modSet) {
 			ms.keys[k] = heapSorts[k]
 		}
 	}
+}
+
+var condTypeisRe = regexp.MustCompile(`^when\s+typeis\((\w+),\s*"([^"]+)"\)\s*:`)
+
+// condModStaticallyFalse: `when typeis(p, "T") : item` cannot apply at a call site whose argument for p has a
+// concrete (non-interface) static type other than T, or is &x with x of a type other than the pointee.
+func (c *Ctx) condModStaticallyFalse(item string, pnames []string) bool {
+	m := condTypeisRe.FindStringSubmatch(strings.TrimSpace(item))
+	if m == nil || c.modsCall == nil || c.modsInfo == nil {
+		return false
+	}
+	idx := -1
+	for i, n := range pnames {
+		if n == m[1] {
+			idx = i
+		}
+	}
+	if idx < 0 || idx >= len(c.modsCall.Args) {
+		return false
+	}
+	tv, ok := c.modsInfo.Types[c.modsCall.Args[idx]]
+	if !ok || tv.Type == nil || types.IsInterface(tv.Type) {
+		return false
+	}
+	want := m[2]
+	var wt types.Type
+	if strings.HasPrefix(want, "*") {
+		if et := c.eng.lookupNamed(want[1:]); et != nil {
+			wt = types.NewPointer(et)
+		}
+	} else {
+		wt = c.eng.lookupNamed(want)
+	}
+	if wt == nil {
+		return false
+	}
+	return !types.Identical(tv.Type, wt)
 }
